@@ -225,6 +225,43 @@ def run(ctx):
         ctx.case(digest("ow", n))
         if n not in src_names:
             ctx.violation("C08/overwrite-list/%s" % n, "dists/overwrite names %s, no such profile in the source tree" % n, {"name": n})
+    # a tree variant: a profile that stack/exec directives name is put on a distribution's ignore list. The tool either
+    # refuses to build (today: the directive cannot read the file) or builds something without dangling references
+    dir_targets = {"stack": set(), "exec": set()}
+    for dp, dns, fns in os.walk(root):
+        for fn in fns:
+            t = matrix.read(os.path.join(dp, fn))
+            for m in re.finditer(r"#aa:(exec|stack)( .*)?$", t, re.M):
+                for a in (m.group(2) or "").split():
+                    if a not in ("P", "U", "p", "u", "PU", "pu", "X"):
+                        dir_targets[m.group(1)].add(a)
+    vcfg = matrix.Cfg("arch", "4", "4.1", "none", "full")       # (--full builds every host of a stack directive)
+    alltext = "\n".join(matrix.read(os.path.join(dp, fn)) for dp, dns, fns in os.walk(root) for fn in fns)
+    for kind in ("stack",):       # (exec directives generate rules without a named target: nothing can dangle by name)
+        cand = sorted(t for t in dir_targets[kind] if ("//&" + t) in alltext)
+        if not cand:
+            continue
+        victim = ctx.rng.choice(cand)
+
+        def mut(src, victim=victim):
+            with open(os.path.join(src, "dists", "ignore", vcfg.dist + ".ignore"), "a") as f:
+                f.write(victim + "\n")
+
+        nb = matrix.run_build(ctx, vcfg, tag="ignored-" + kind, tap=False, src_mutator=mut)
+        ctx.case(digest("variant-ignore", kind, victim), {"variant": "ignore list gains " + victim, "prebuild_rc": nb.rc})
+        if nb.rc == 0:
+            r = _collect_one(nb.aad)
+            if r is not None:
+                defs, refs, variables = r
+                defs = defs | ups
+                for (fn, cur, kind_, mode, target, text) in refs:
+                    for c in resolve(target, cur or "", kind_, mode, defs, variables):
+                        if victim in c.replace("//&", "//").split("//"):
+                            ctx.violation("C08/dangling-after-ignore/%s" % kind,
+                                          "with %s on the ignore list the build succeeds and %s still names it: `%s`" % (victim, fn, text),
+                                          {"ignored": victim, "file": fn, "rule": text})
+        ctx.extra.setdefault("ignore_variants", []).append({"ignored": victim, "directive": kind, "prebuild_rc": nb.rc})
+        shutil.rmtree(nb.root, ignore_errors=True)
     ctx.require(ctx.evaluations >= 500 * max(1, len([b for b in builds if b.rc == 0])), "only %d references seen" % ctx.evaluations)
     ctx.extra["configurations"] = len(cfgs)
     ctx.samples = [{"cfg": c.id} for c in cfgs[:3]]
